@@ -234,6 +234,71 @@ def _discr_of(block, sw, local):
     return False
 
 
+def _split_tails(hd, new, extra, bo, variants, thread_fn):
+    """Return paths of the helper often merge before the `return` (a shared chain of storage / drop blocks).  Every edge that enters
+    that tail with a known result variant gets its own copy of the tail, which `thread_fn(copy_of_return_block, variant)` can then
+    send to the matching arm of the caller's dispatch.  `new` are the relabelled helper blocks (index = helper block id), `extra`
+    collects cloned blocks (their ids continue after `new`)."""
+    blocks = hd['blocks']
+    n = len(blocks)
+
+    def plain(bi):
+        bl = blocks[bi]
+        if bl.get('cleanup'):
+            return False
+        if any(x.get('k') not in ('live', 'dead', 'nop') for x in bl['stmts']):
+            return False
+        return bl['term']['k'] in ('goto', 'drop', 'return')
+    tail = set()
+    for bi in range(n):
+        if blocks[bi]['term']['k'] == 'return' and plain(bi):
+            tail.add(bi)
+    changed = True
+    while changed:
+        changed = False
+        for bi in range(n):
+            if bi in tail or not plain(bi) or blocks[bi]['term']['k'] == 'return':
+                continue
+            if blocks[bi]['term'].get('t') in tail:
+                tail.add(bi)
+                changed = True
+    done = 0
+    for pi in range(n):
+        if pi in tail or blocks[pi].get('cleanup'):
+            continue
+        v = variants.get(('out', pi))
+        if not _known(v):
+            continue
+        for q in set(_succs(blocks[pi]['term'])):
+            if q not in tail:
+                continue
+            # clone the chain q -> .. -> return
+            chain = []
+            cur = q
+            while cur is not None and cur in tail and len(chain) < 40:
+                chain.append(cur)
+                cur = blocks[cur]['term'].get('t') if blocks[cur]['term']['k'] != 'return' else None
+            if not chain or blocks[chain[-1]]['term']['k'] != 'return':
+                continue
+            first = None
+            prev = None
+            last = None
+            for c in chain:
+                cl = copy.deepcopy(new[c])
+                cid = bo + len(new) + len(extra)
+                extra.append(cl)
+                if first is None:
+                    first = cid
+                if prev is not None:
+                    _retarget(prev['term'], bo + c, cid)
+                prev = cl
+                last = cl
+            _retarget(new[pi]['term'], bo + q, first)
+            thread_fn(last, v)
+            done += 1
+    return done
+
+
 def _thread(ret_block, thread, variant, blocks, new, extra, bo):
     """make `ret_block` (an inlined return whose variant is known) continue through private copies of the dispatch chain that end in
     a goto to the arm matching the variant"""
@@ -604,6 +669,46 @@ def _await_pattern(blocks, b0):
     return None
 
 
+def _await_dispatch_chain(blocks, ready, poll_local):
+    """the straight-line blocks from the Ready arm of an await to the dispatch on the awaited value (`?` = Try::branch + switch, or a switch
+    on its discriminant): {'chain': [...], 'kind': 'try'|'direct'} or None"""
+    carried = {poll_local}
+    chain = []
+    cur = ready
+    for _ in range(10):
+        if cur is None:
+            return None
+        bl = blocks[cur]
+        chain.append(cur)
+        for st in bl['stmts']:
+            if st.get('k') == 'assign' and not st['place'].get('p'):
+                rv = st['rv']
+                src = (rv.get('op') or {}).get('place') if rv.get('k') == 'use' else None
+                if src and src.get('l') in carried:
+                    carried.add(st['place']['l'])
+        tt = bl['term']
+        if tt['k'] == 'call' and (tt.get('callee') or {}).get('name') == 'branch' and 'Try' in (((tt.get('callee') or {}).get('def') or '') + ((tt.get('callee') or {}).get('trait') or '')):
+            a = (tt['args'][0].get('place') or {}) if tt.get('args') else {}
+            if a.get('l') in carried and not a.get('p') and tt.get('t') is not None and blocks[tt['t']]['term']['k'] == 'switch' \
+                    and _discr_of(blocks[tt['t']], blocks[tt['t']]['term'], tt['dest']['l']):
+                return {'chain': chain + [tt['t']], 'kind': 'try'}
+            return None
+        if tt['k'] == 'switch':
+            op = (tt.get('op') or {}).get('place') or {}
+            for st in reversed(bl['stmts']):
+                if st.get('k') == 'assign' and st['place'].get('l') == op.get('l') and st['rv'].get('k') == 'discr':
+                    if (st['rv'].get('place') or {}).get('l') in carried and not (st['rv']['place'].get('p')):
+                        return {'chain': chain, 'kind': 'direct'}
+            return None
+        if tt['k'] in ('goto', 'drop'):
+            cur = tt['t']
+        elif tt['k'] == 'call' and tt.get('t') is not None and (tt.get('callee') or {}).get('name') not in ('poll', 'into_future'):
+            cur = tt['t']
+        else:
+            return None
+    return None
+
+
 def _subst_upvars(x, self_local, up):
     """places `(_self.k).rest` -> `_up[k].rest`"""
     if isinstance(x, list):
@@ -622,7 +727,7 @@ def _subst_upvars(x, self_local, up):
             _subst_upvars(v, self_local, up)
 
 
-def expand_async(crate, body, exclude=(), depth=2):
+def expand_async(crate, body, exclude=(), depth=2, single_caller=False):
     """body with the awaited calls of private async helper functions (same module scope, not in `exclude`) replaced by the helper's
     coroutine body: the helper's upvars are the call's arguments, its yields stay yields, its return continues at the Ready arm of the
     await.  Used where a rule anchors on one coroutine (Server::run, the call handler) and a maintainer may move part of it into an
@@ -634,6 +739,18 @@ def expand_async(crate, body, exclude=(), depth=2):
     nb_by = crate.by_path
     d = body.d
     changed = False
+    awaiters = None
+    if single_caller:
+        awaiters = {}
+        for rb in crate.raw_bodies:
+            if rb.in_test:
+                continue
+            for blk in rb.blocks:
+                t_ = blk['term']
+                if t_['k'] == 'call':
+                    p_ = callee_path(t_)
+                    if p_:
+                        awaiters.setdefault(p_, set()).add(rb.path)
     for _round in range(depth):
         blocks = [dict(x) for x in d['blocks']]
         locals_ = list(d['locals'])
@@ -649,7 +766,8 @@ def expand_async(crate, body, exclude=(), depth=2):
                 co = nb_by.get(copath) if copath else None
                 if shell is not None and co is not None and co.is_coroutine and copath not in exclude and p not in exclude \
                         and shell.d.get('vis') == 'restricted' and shell.d.get('impl_trait') is None and _same_module_scope(shell.file, body.file) \
-                        and not (t['dest'].get('p')) and len(t.get('args') or []) == shell.arg_count:
+                        and not (t['dest'].get('p')) and len(t.get('args') or []) == shell.arg_count \
+                        and (awaiters is None or len(awaiters.get(p, ())) == 1):
                     pat = _await_pattern(blocks, i)
                     if pat is not None:
                         pollb, swb, ready = pat
@@ -690,6 +808,14 @@ def expand_async(crate, body, exclude=(), depth=2):
                             elif tt['k'] == 'coroutine_drop':
                                 nb['term'] = {'k': 'unreachable', 'line': tt.get('line')}
                             blocks.append(nb)
+                        # jump threading over the awaited result (`helper().await?`): returns with a known variant go to the matching arm
+                        chain = _await_dispatch_chain(blocks, ready, poll_dest['l'])
+                        if chain is not None:
+                            variants = _return_variants(hd)
+                            new_ = blocks[bo:]
+                            extra = []
+                            _split_tails(hd, new_, extra, bo, variants, lambda rb_, v_: _thread(rb_, chain, v_, blocks, new_, extra, bo))
+                            blocks.extend(extra)
                         blk = dict(blocks[i])
                         blk['stmts'] = list(blk['stmts']) + glue
                         blk['term'] = {'k': 'goto', 't': bo, 'line': line, 'glue': 'await-call', 'inlined_call': t}
